@@ -40,6 +40,7 @@ def gen_dag(rng, n):
     sch = S.Schema()
     deps = {}
     consts, enums, enumerators, fixed, typedefs = [], [], [], [], []
+    int_typedefs, dyn_structs = [], []
     scal = ['u8', 'u16', 'u32', 'u64', 'i8', 'i32', 'r64']
 
     def size_ref():
@@ -125,11 +126,20 @@ def gen_dag(rng, n):
             for m in members:
                 enumerators.append((name, m[0], m[1]))
             fixed.append(name)
+        elif k == 'typedef' and dyn_structs and rng.random() < 0.25:
+            # an alias of a dynamic struct (usable as a last member only: not offered to the later definitions)
+            tgt = rng.choice(dyn_structs)
+            sch.add(S.Typedef(name, tgt))
+            d.add(tgt)
         elif k == 'typedef':
             tgt = rng.choice(fixed + scal) if fixed else rng.choice(scal)
+            if int_typedefs and rng.random() < 0.2:
+                tgt = rng.choice(int_typedefs)
             sch.add(S.Typedef(name, tgt))
             if tgt not in scal:
                 d.add(tgt)
+            if (tgt in scal and tgt != 'r64') or tgt in int_typedefs:
+                int_typedefs.append(name)
             fixed.append(name)
         elif k == 'struct':
             mem = []
@@ -147,11 +157,20 @@ def gen_dag(rng, n):
                         d.add(dep)
                 elif r < 0.9:
                     mem.append(S.Member('m%d' % j, t, S.OPTIONAL))
+                elif int_typedefs and rng.random() < 0.6:
+                    # an array counted by an explicit length field whose type is a typedef of an integer: the struct
+                    # needs that typedef through the length field only
+                    ct = rng.choice(int_typedefs)
+                    mem.append(S.Member('n%d' % j, ct))
+                    mem.append(S.Member('m%d' % j, t, S.EXT, sizer='n%d' % j))
+                    d.add(ct)
                 else:
                     mem.append(S.Member('m%d' % j, t, S.DYNAMIC))
             sch.add(S.Struct(name, mem))
             if S.struct_stiffness(sch, sch.by_name[name]) == S.FIXED_S:
                 fixed.append(name)
+            else:
+                dyn_structs.append(name)
         else:
             arms = []
             used = set()
@@ -290,16 +309,53 @@ def check_perm(acc, stepper, calib, wd, idx, sch, deps, order, w, ref_layouts, e
                       witness(output=names, error='%s: %s' % (type(e).__name__, str(e)[:300])))
         return None
     lay = {}
+    mem = {}
     for n in lst:
         if isinstance(n, (M.Struct, M.Union)):
             lay[n.name] = (n.byte_size if w.tinfo(n.name)[2] == S.FIXED_S else None, n.alignment, n.kind)
+        if isinstance(n, M.Struct):
+            mem[n.name] = [(m.name, m.byte_size, m.alignment, m.padding) for m in n.members]
     if lay != ref_layouts:
         bad = [k for k in ref_layouts if lay.get(k) != ref_layouts[k]]
         acc.violation(PROP, 'layout-differs-from-reference-or-between-permutations',
                       witness(types=bad, got={k: lay.get(k) for k in bad}, reference={k: ref_layouts[k] for k in bad}))
         return None
+    # member level (size, alignment, padding of every struct member): equal in every permutation, and equal to what
+    # the prophy front-end computes for the same definitions written in a valid order
+    ref_mem = member_ref.setdefault(id(sch), {})
+    for src in ('prophy-front-end', 'first-permutation'):
+        if src not in ref_mem:
+            if src == 'first-permutation':
+                ref_mem[src] = mem
+            continue
+        if ref_mem[src] is not None and mem != ref_mem[src]:
+            bad = [k for k in mem if mem[k] != ref_mem[src].get(k)]
+            acc.violation(PROP, 'member-layout-differs-%s' % ('between-permutations' if src == 'first-permutation' else
+                                                              'from-the-prophy-front-end'),
+                          witness(types=bad, got={k: mem[k] for k in bad}, reference={k: ref_mem[src].get(k) for k in bad}))
+            return None
+    acc.count('member_layouts_equal')
     acc.count('layouts_equal')
     return names
+
+
+member_ref = {}
+
+
+def prophy_member_reference(acc, wd, idx, sch):
+    """Member tables of the same definitions through the prophy front-end (None when it cannot express them)."""
+    import prophyc.model as M
+    d = os.path.join(wd, 'ref%d' % idx)
+    os.makedirs(d)
+    with open(os.path.join(d, 'ref.prophy'), 'w') as f:
+        f.write(sch.to_prophy())
+    exc, _steps, nodes = pc.run_main(['--quiet', '--python_out', d, os.path.join(d, 'ref.prophy')])
+    if exc is not None:
+        acc.count('definition_sets_without_a_prophy_front_end_reference')
+        return None
+    acc.count('definition_sets_with_a_prophy_front_end_reference')
+    return {n.name: [(m.name, m.byte_size, m.alignment, m.padding) for m in n.members]
+            for n in nodes['ref'] if isinstance(n, M.Struct)}
 
 
 CPP_SCALARS = {'uint8_t': 'u8', 'uint16_t': 'u16', 'uint32_t': 'u32', 'uint64_t': 'u64', 'int8_t': 'i8',
@@ -475,6 +531,9 @@ def run_shard(spec):
                     size, align, stiff = w.tinfo(d.name)
                     ref[d.name] = (size, align, stiff)
                 acc.sig(shape_sig(sch, deps))
+                member_ref.clear()
+                idx[0] += 1
+                member_ref[id(sch)] = {'prophy-front-end': prophy_member_reference(acc, wd, idx[0], sch)}
                 for order in perms:
                     idx[0] += 1
                     check_perm(acc, stepper, calib, wd, idx[0], sch, deps, list(order), w, ref, exhaustive)
